@@ -1,5 +1,6 @@
 import Refinery.Lemmas.TraceKey
 import Refinery.Gen.Tracekey
+import Std.Data.String.ToInt
 /-!
 # C11 — dynamic sample keys depend only on the trace's distinct field values
 
@@ -12,10 +13,17 @@ free of the key delimiters) get different keys, and the sampler returns a rate o
 keeps with probability 1/rate.
 
 All theorems quantify over every trace (any spans, any typed values, root present or not), every
-field list, both settings of `UseTraceLength`, every rendering of values (`Ext`) and — where it
-does not matter — every cap and root prefix; the code's own constants are `codeCap`, `codePrefix`
-(generated from the compiled package).  "Value" means the value's rendering by `AddAsString`
-(so `1`, `"1"` and `1.0` are the same value, as `TestDistinctValue_AddAsString` expects).
+field list, both settings of `UseTraceLength`, every rendering of values (`Render`; the code's is
+`renderOf e`) and — where it does not matter — every cap and root prefix; the code's own constants
+are `codeCap`, `codePrefix` (generated from the compiled package).
+
+"Distinct values" are LOGICAL, type-tagged values (`Val`), not their renderings.  The key is text,
+so two different values that render alike (`int64 1`, `uint64 1`, `"1"`, `float64 1`) cannot be
+told apart by design of the key format (`TestDistinctValue_AddAsString` expects exactly that); the
+separation theorem therefore carries the explicit hypothesis `RenderInj`: among the values
+involved, different values have different renderings.  For integers of any Go integer type the
+modelled rendering is injective in the number (`render_int_inj`), so e.g. `int64 -1` and
+`uint64 2^64-1` must get different keys.
 
 History: before commit a1a4703 the value `""` was never written (`prevStr` started as `""`), so
 `{"", "a"}` and `{"a"}` gave the same key and `KeySeparates` was refuted.  The repaired loop
@@ -29,7 +37,7 @@ def codeCap : Nat := Gen.Tracekey.maxKeyLength.toNat
 def codePrefix : String := Gen.Tracekey.rootPrefix
 
 /-- "fewer than `cap` distinct values are involved" -/
-def BelowCap (cap : Nat) (pre : String) (x : Ext) (c : Cfg) (spans : List Span) : Prop :=
+def BelowCap (cap : Nat) (pre : String) (x : Render) (c : Cfg) (spans : List Span) : Prop :=
   distinctTotal x.conv spans (nonRootFields pre c) < cap
 
 instance (cap pre x c spans) : Decidable (BelowCap cap pre x c spans) := by
@@ -40,7 +48,7 @@ instance (cap pre x c spans) : Decidable (BelowCap cap pre x c spans) := by
 /-- **key_determined** — below the cap, the key (and the value count) depends only on: the *set* of
 values each non-root field takes across the spans, the root span, and the number of spans if
 `UseTraceLength` is set. -/
-theorem key_determined (cap : Nat) (pre : String) (x : Ext) (c : Cfg) (t₁ t₂ : Trace)
+theorem key_determined (cap : Nat) (pre : String) (x : Render) (c : Cfg) (t₁ t₂ : Trace)
     (hroot : t₁.root = t₂.root)
     (hlen : c.useTraceLength = true → t₁.spans.length = t₂.spans.length)
     (hset : ∀ f ∈ nonRootFields pre c,
@@ -61,7 +69,7 @@ theorem key_determined (cap : Nat) (pre : String) (x : Ext) (c : Cfg) (t₁ t₂
 
 /-- **perm_invariant** — reordering the spans in any way does not change the key while fewer
 than `cap` distinct values are involved. -/
-theorem perm_invariant (cap : Nat) (pre : String) (x : Ext) (c : Cfg) (root : Option Span)
+theorem perm_invariant (cap : Nat) (pre : String) (x : Render) (c : Cfg) (root : Option Span)
     (s₁ s₂ : List Span) (h : s₁.Perm s₂) (hcap : BelowCap cap pre x c s₁) :
     build cap pre x c ⟨s₁, root⟩ = build cap pre x c ⟨s₂, root⟩ :=
   key_determined cap pre x c ⟨s₁, root⟩ ⟨s₂, root⟩ rfl (fun _ => h.length_eq)
@@ -83,7 +91,7 @@ theorem sameSet_dup (conv : Val → String) (l₁ l₂ : List Span) (sp : Span) 
 /-- **dup_invariant** — inserting, at any position, a copy of a span the trace already has does
 not change the key (below the cap; `UseTraceLength` off — with it on, the span count is part of
 the key by definition, see `dup_changes_only_length`). -/
-theorem dup_invariant (cap : Nat) (pre : String) (x : Ext) (c : Cfg) (root : Option Span)
+theorem dup_invariant (cap : Nat) (pre : String) (x : Render) (c : Cfg) (root : Option Span)
     (l₁ l₂ : List Span) (sp : Span) (hmem : sp ∈ l₁ ++ l₂) (htl : c.useTraceLength = false)
     (hcap : BelowCap cap pre x c (l₁ ++ l₂)) :
     build cap pre x c ⟨l₁ ++ sp :: l₂, root⟩ = build cap pre x c ⟨l₁ ++ l₂, root⟩ :=
@@ -92,14 +100,14 @@ theorem dup_invariant (cap : Nat) (pre : String) (x : Ext) (c : Cfg) (root : Opt
     (fun f _ s => (sameSet_dup x.conv l₁ l₂ sp hmem f s).symm) hcap).symm
 
 /-- The key is `body ++ span count`, the body not depending on `UseTraceLength`. -/
-theorem key_eq_body_append_len (cap : Nat) (pre : String) (x : Ext) (c : Cfg) (t : Trace) :
+theorem key_eq_body_append_len (cap : Nat) (pre : String) (x : Render) (c : Cfg) (t : Trace) :
     key cap pre x c t =
       key cap pre x { c with useTraceLength := false } t ++ (renderLen c t.spans).1 := by
   simp [key, build, nonRootFields, rootFields, renderLen]
 
 /-- **dup_invariant with `UseTraceLength`** — duplicating a span changes nothing but the span
 count at the end of the key. -/
-theorem dup_changes_only_length (cap : Nat) (pre : String) (x : Ext) (c : Cfg) (root : Option Span)
+theorem dup_changes_only_length (cap : Nat) (pre : String) (x : Render) (c : Cfg) (root : Option Span)
     (l₁ l₂ : List Span) (sp : Span) (hmem : sp ∈ l₁ ++ l₂) (htl : c.useTraceLength = true)
     (hcap : BelowCap cap pre x c (l₁ ++ l₂)) :
     ∃ body, key cap pre x c ⟨l₁ ++ l₂, root⟩ = body ++ toString (l₁ ++ l₂).length ∧
@@ -113,7 +121,7 @@ theorem dup_changes_only_length (cap : Nat) (pre : String) (x : Ext) (c : Cfg) (
     simp [renderLen, htl, Nat.add_assoc]
 
 /-- The configured order of the field list does not matter (`newTraceKey` sorts it). -/
-theorem field_order_invariant (cap : Nat) (pre : String) (x : Ext) (f₁ f₂ : List String) (tl : Bool)
+theorem field_order_invariant (cap : Nat) (pre : String) (x : Render) (f₁ f₂ : List String) (tl : Bool)
     (t : Trace) (h : f₁.Perm f₂) : build cap pre x ⟨f₁, tl⟩ t = build cap pre x ⟨f₂, tl⟩ t := by
   simp [build, nonRootFields, rootFields, renderLen, sortStr_eq_of_perm h]
 
@@ -126,7 +134,7 @@ def rootVal (fmtv : Val → String) (root : Option Span) (f : String) : Option S
 /-- The hypotheses of the separation claim on one trace: below the cap, every configured field
 present (non-root fields on some span, root fields on the root span), every value free of the two
 key delimiters `•` and `,`. -/
-structure Admissible (cap : Nat) (pre : String) (x : Ext) (c : Cfg) (t : Trace) : Prop where
+structure Admissible (cap : Nat) (pre : String) (x : Render) (c : Cfg) (t : Trace) : Prop where
   belowCap : BelowCap cap pre x c t.spans
   present : ∀ f ∈ nonRootFields pre c, fieldVals x.conv t.spans f ≠ []
   rootPresent : ∀ f ∈ rootFields pre c, (rootVal x.fmtv t.root f).isSome = true
@@ -134,23 +142,47 @@ structure Admissible (cap : Nat) (pre : String) (x : Ext) (c : Cfg) (t : Trace) 
   rootDelimFree : ∀ f ∈ rootFields pre c, ∀ s ∈ (rootVal x.fmtv t.root f).toList, DelimFree s
 
 /-- some field's value set differs -/
-def Differ (pre : String) (x : Ext) (c : Cfg) (t₁ t₂ : Trace) : Prop :=
+def Differ (pre : String) (x : Render) (c : Cfg) (t₁ t₂ : Trace) : Prop :=
   (∃ f ∈ nonRootFields pre c, ¬ SameSet (fieldVals x.conv t₁.spans f) (fieldVals x.conv t₂.spans f)) ∨
   (∃ f ∈ rootFields pre c, rootVal x.fmtv t₁.root f ≠ rootVal x.fmtv t₂.root f)
 
-/-- **key_separates, full statement**: traces whose fields are all present and differ in some
-field's value set (values free of the key delimiters) get different keys. -/
-def KeySeparates (cap : Nat) (pre : String) : Prop :=
-  ∀ (x : Ext) (c : Cfg) (t₁ t₂ : Trace),
+/-- separation stated on renderings (internal step; the property's statement is `KeySeparates`) -/
+def KeySeparatesRenderings (cap : Nat) (pre : String) : Prop :=
+  ∀ (x : Render) (c : Cfg) (t₁ t₂ : Trace),
     Admissible cap pre x c t₁ → Admissible cap pre x c t₂ → Differ pre x c t₁ t₂ →
     key cap pre x c t₁ ≠ key cap pre x c t₂
 
+/-- the logical value of a root-only field: read from the root span, nowhere else -/
+def rootLogical (root : Option Span) (f : String) : Option Val := root.bind fun r => r.lookup f
+
+/-- some field's set of LOGICAL values differs -/
+def DifferLogical (pre : String) (c : Cfg) (t₁ t₂ : Trace) : Prop :=
+  (∃ f ∈ nonRootFields pre c, ¬ SameSet (fieldLogical t₁.spans f) (fieldLogical t₂.spans f)) ∨
+  (∃ f ∈ rootFields pre c, rootLogical t₁.root f ≠ rootLogical t₂.root f)
+
+/-- Among the values the two traces have in one key field, different values render differently
+(the key is text: `int64 1` and `"1"` in the same field are indistinguishable by design). -/
+def RenderInj (pre : String) (x : Render) (c : Cfg) (t₁ t₂ : Trace) : Prop :=
+  (∀ f ∈ nonRootFields pre c, ∀ v ∈ fieldLogical t₁.spans f ++ fieldLogical t₂.spans f,
+     ∀ w ∈ fieldLogical t₁.spans f ++ fieldLogical t₂.spans f, x.conv v = x.conv w → v = w) ∧
+  (∀ f ∈ rootFields pre c, ∀ v w, rootLogical t₁.root f = some v → rootLogical t₂.root f = some w →
+     x.fmtv v = x.fmtv w → v = w)
+
+/-- **key_separates, full statement**: traces whose fields are all present and differ in some
+field's set of (logical) values — values whose renderings are free of the key delimiters and
+pairwise different — get different keys. -/
+def KeySeparates (cap : Nat) (pre : String) : Prop :=
+  ∀ (x : Render) (c : Cfg) (t₁ t₂ : Trace),
+    Admissible cap pre x c t₁ → Admissible cap pre x c t₂ → RenderInj pre x c t₁ t₂ →
+    DifferLogical pre c t₁ t₂ → key cap pre x c t₁ ≠ key cap pre x c t₂
+
 /-! The former counterexample: one key field `f`; trace 1 has spans with `f=""` and `f="a"`,
 trace 2 has `f="a"` twice.  The keys are now `•a•,2` and `a•,2`. -/
-def wx : Ext := ⟨fun v => v.raw, fun v => v.raw⟩
+def we : Ext := ⟨fun _ r => r, fun _ r => r⟩
+def wx : Render := renderOf we
 def wc : Cfg := ⟨["f"], true⟩
-def wt₁ : Trace := ⟨[[("f", ⟨"s", ""⟩)], [("f", ⟨"s", "a"⟩)]], none⟩
-def wt₂ : Trace := ⟨[[("f", ⟨"s", "a"⟩)], [("f", ⟨"s", "a"⟩)]], none⟩
+def wt₁ : Trace := ⟨[[("f", .str "")], [("f", .str "a")]], none⟩
+def wt₂ : Trace := ⟨[[("f", .str "a")], [("f", .str "a")]], none⟩
 
 example : build codeCap codePrefix wx wc wt₁ = ("•a•,2", 3) := by decide
 example : build codeCap codePrefix wx wc wt₂ = ("a•,2", 2) := by decide
@@ -236,7 +268,7 @@ theorem root_inj {fmtv : Val → String} {r₁ r₂ : Option Span} (fs : List St
     · exact h2.1 g hg
 
 /-- Equal keys of admissible traces ⇒ equal value sets. -/
-theorem value_sets_of_key (cap : Nat) (pre : String) (x : Ext) (c : Cfg) (t₁ t₂ : Trace)
+theorem value_sets_of_key (cap : Nat) (pre : String) (x : Render) (c : Cfg) (t₁ t₂ : Trace)
     (a₁ : Admissible cap pre x c t₁) (a₂ : Admissible cap pre x c t₂)
     (h : key cap pre x c t₁ = key cap pre x c t₂) :
     (∀ f ∈ nonRootFields pre c, SameSet (fieldVals x.conv t₁.spans f) (fieldVals x.conv t₂.spans f)) ∧
@@ -252,19 +284,73 @@ theorem value_sets_of_key (cap : Nat) (pre : String) (x : Ext) (c : Cfg) (t₁ t
   have r := root_inj (rootFields pre c) a₁.rootPresent a₂.rootPresent a₁.rootDelimFree a₂.rootDelimFree g.2
   exact ⟨g.1, r.1⟩
 
-/-- **key_separates** — the full statement, for every cap and root prefix (the code's included):
-traces whose fields are all present and differ in some field's value set (values free of the key
-delimiters `•` and `,`; the empty string allowed) get different keys while fewer than `cap`
-distinct values are involved. -/
-theorem key_separates (cap : Nat) (pre : String) : KeySeparates cap pre := by
+theorem key_separates_renderings (cap : Nat) (pre : String) : KeySeparatesRenderings cap pre := by
   intro x c t₁ t₂ a₁ a₂ hd h
   have v := value_sets_of_key cap pre x c t₁ t₂ a₁ a₂ h
   rcases hd with ⟨f, hf, hne⟩ | ⟨f, hf, hne⟩
   · exact hne (v.1 f hf)
   · exact hne (v.2 f hf)
 
+theorem fieldVals_eq_map (conv : Val → String) (spans : List Span) (f : String) :
+    fieldVals conv spans f = (fieldLogical spans f).map conv := by
+  simp [fieldVals, fieldLogical, List.map_filterMap]
+
+theorem rootVal_eq_map (fmtv : Val → String) (root : Option Span) (f : String) :
+    rootVal fmtv root f = (rootLogical root f).map fmtv := by
+  cases root <;> simp [rootVal, rootLogical]
+
+/-- **key_separates** — the full statement, for every cap, root prefix and rendering (the code's
+included): traces whose fields are all present and differ in some field's set of logical values
+get different keys, provided the values' renderings are free of `•` and `,` (the empty string
+allowed), pairwise different for different values, and fewer than `cap` distinct values are
+involved. -/
+theorem key_separates (cap : Nat) (pre : String) : KeySeparates cap pre := by
+  intro x c t₁ t₂ a₁ a₂ hinj hd h
+  have v := value_sets_of_key cap pre x c t₁ t₂ a₁ a₂ h
+  rcases hd with ⟨f, hf, hne⟩ | ⟨f, hf, hne⟩
+  · apply hne
+    have hs := v.1 f hf
+    rw [fieldVals_eq_map, fieldVals_eq_map] at hs
+    have hi := hinj.1 f hf
+    intro u
+    constructor
+    · intro hu
+      obtain ⟨w, hw, e⟩ := List.mem_map.mp ((hs (x.conv u)).mp (List.mem_map.mpr ⟨u, hu, rfl⟩))
+      have := hi w (List.mem_append.mpr (Or.inr hw)) u (List.mem_append.mpr (Or.inl hu)) e
+      exact this ▸ hw
+    · intro hu
+      obtain ⟨w, hw, e⟩ := List.mem_map.mp ((hs (x.conv u)).mpr (List.mem_map.mpr ⟨u, hu, rfl⟩))
+      have := hi w (List.mem_append.mpr (Or.inl hw)) u (List.mem_append.mpr (Or.inr hu)) e
+      exact this ▸ hw
+  · apply hne
+    have hs := v.2 f hf
+    rw [rootVal_eq_map, rootVal_eq_map] at hs
+    have p₁ := a₁.rootPresent f hf
+    have p₂ := a₂.rootPresent f hf
+    rw [rootVal_eq_map] at p₁ p₂
+    cases h₁ : rootLogical t₁.root f with
+    | none => simp [h₁] at p₁
+    | some a =>
+      cases h₂ : rootLogical t₂.root f with
+      | none => simp [h₂] at p₂
+      | some b =>
+        simp only [h₁, h₂, Option.map_some, Option.some.injEq] at hs
+        rw [hinj.2 f hf a b h₁ h₂ hs]
+
+/-- The modelled rendering of integers is injective in the number, whatever the Go integer types:
+different integers (e.g. `int64 -1` and `uint64 18446744073709551615`) never render alike. -/
+theorem render_int_inj (e : Ext) (t₁ t₂ : String) (n m : Int)
+    (h : (renderOf e).conv (.int t₁ n) = (renderOf e).conv (.int t₂ m)) : n = m :=
+  Int.repr_injective h
+
 /-- the former counterexample is separated now -/
 example : key codeCap codePrefix wx wc wt₁ ≠ key codeCap codePrefix wx wc wt₂ := by decide
+
+/-- plain renderings are fixed by the model, not taken from the code -/
+example : (renderOf we).conv (.int "uint64" 18446744073709551615) = "18446744073709551615" := by decide
+example : (renderOf we).conv (.int "int64" (-9223372036854775808)) = "-9223372036854775808" := by decide
+example : key codeCap codePrefix wx ⟨["f"], false⟩ ⟨[[("f", .int "int64" (-1))]], none⟩ ≠
+    key codeCap codePrefix wx ⟨["f"], false⟩ ⟨[[("f", .int "uint64" 18446744073709551615)]], none⟩ := by decide
 
 /-! ## rate floor and keep draw -/
 
@@ -318,7 +404,7 @@ theorem keep_one_in_rate (r : Int) :
 
 /-- `GetSampleRate` as a whole: the key handed to dynsampler and returned is the trace key, and
 the floor / keep claims hold for whatever dynsampler (`dyn`) and `rand.Intn` (`intn`) do. -/
-theorem getSampleRate_spec (cap : Nat) (pre : String) (x : Ext) (c : Cfg) (t : Trace)
+theorem getSampleRate_spec (cap : Nat) (pre : String) (x : Render) (c : Cfg) (t : Trace)
     (dyn : String → Nat → Int) (intn : Nat → Nat) :
     let res := getSampleRate cap pre x c t dyn intn
     res.1 = key cap pre x c t ∧ 1 ≤ res.2.rate ∧ (res.2.keep = true ↔ intn res.2.rate = 0) :=
@@ -326,11 +412,11 @@ theorem getSampleRate_spec (cap : Nat) (pre : String) (x : Ext) (c : Cfg) (t : T
 
 /-! ## non-vacuity: concrete traces evaluated by the kernel -/
 
-def ex : Ext := ⟨fun v => v.raw, fun v => "<" ++ v.raw ++ ">"⟩
+def ex : Render := ⟨(renderOf we).conv, fun v => "<" ++ (renderOf we).fmtv v ++ ">"⟩
 def ec : Cfg := ⟨["root.svc", "status", "path"], true⟩
-def sA : Span := [("status", ⟨"i", "200"⟩), ("path", ⟨"s", "/x"⟩), ("svc", ⟨"s", "ignored"⟩)]
-def sB : Span := [("status", ⟨"i", "404"⟩)]
-def sR : Span := [("svc", ⟨"s", "api"⟩), ("status", ⟨"i", "200"⟩)]
+def sA : Span := [("status", .int "int" 200), ("path", .str "/x"), ("svc", .str "ignored")]
+def sB : Span := [("status", .int "int" 404)]
+def sR : Span := [("svc", .str "api"), ("status", .int "int" 200)]
 
 example : build codeCap codePrefix ex ec ⟨[sA, sB, sR], some sR⟩ = ("/x•,200•404•,<api>,3", 5) := by decide
 example : build codeCap codePrefix ex ec ⟨[sR, sB, sA], some sR⟩ = ("/x•,200•404•,<api>,3", 5) := by decide
@@ -339,7 +425,7 @@ example : build codeCap codePrefix ex ⟨["status"], false⟩ ⟨[sA, sB, sA, sR
 example : build codeCap codePrefix ex ⟨["status"], false⟩ ⟨[sB, sA], none⟩ = ("200•404•,", 2) := by decide
 -- the cap at work (cap 3: the third distinct value is counted but not stored, then the loop stops)
 example : build 3 codePrefix ex ⟨["status"], false⟩
-    ⟨[[("status", ⟨"i", "1"⟩)], [("status", ⟨"i", "2"⟩)], [("status", ⟨"i", "3"⟩)], [("status", ⟨"i", "4"⟩)]], none⟩
+    ⟨[[("status", .int "int" 1)], [("status", .int "int" 2)], [("status", .int "int" 3)], [("status", .int "int" 4)]], none⟩
     = ("1•2•,", 2) := by decide
 example : Admissible codeCap codePrefix ex ec ⟨[sA, sB, sR], some sR⟩ :=
   ⟨by decide, by decide, by decide, by decide, by decide⟩
